@@ -245,5 +245,10 @@ def run(chk):
     from . import codelemmas
     codelemmas.open_ended(chk, c, 'C09-Z')
 
+    chk.rule('C09-E', 'an element is attached really or for traversal, never both: storing a real parent clears '
+                      'traversal_parent before the element is handed on (remove / replace_child choose the list to edit by '
+                      'testing child.traversal_parent)')
+    tf.exclusive_parents(chk, c, 'C09-E')
+
     chk.assume('collections.abc.MutableSequence mixins (pop, extend, clear, reverse, __iadd__) are written in terms of '
                '__getitem__/__setitem__/__delitem__/insert/__len__ (axiom table in callgraph.py)')
